@@ -440,6 +440,13 @@ def rule_twincall(ctx):
         mirror = twin and swap_roles(P, f) is Rc and swap_roles(Rc, f) is P
         # recall is the call in (reference, estimate) order
         order = twin and roles(Rc.a[1][0]) == {"R"} and roles(Rc.a[1][1]) == {"E"} and roles(P.a[1][0]) == {"E"}
+        if not twin and "hierarchy._gauc" in s.inlined:
+            # _gauc evaluated in place (its signature changed): the two scores are each other's mirror image; which of
+            # them is the (reference, estimate) one is read off the first matrix the ranking loop indexes
+            mirror = common.shape_key(swap_roles(P, f)) == common.shape_key(Rc) and common.shape_key(swap_roles(Rc, f)) == common.shape_key(P)
+            raise_if = not mirror
+            if mirror:
+                raise AnalysisError(R, "%s: _gauc is evaluated in place; precision/recall are mirror images but their orientation is not read in this form" % qual)
         yield ob(R, f, "%s:_gauc-twin" % qual, mirror and order, "precision = _gauc(est, ref, ...) is the exact mirror of recall = _gauc(ref, est, ...): all other arguments identical")
         # returned in (precision, recall, measure) order
         rt = s.returns[-1].term
